@@ -22,13 +22,18 @@ import (
 	"github.com/zeromicro/go-zero/internal/verifh"
 )
 
-func c05GenHandler(r *verifh.Rng) []verifh.Section {
+func c05GenHandlerSeq(r *verifh.Rng) []verifh.Section {
 	var secs []verifh.Section
-	for i := 0; i < verifh.Scale(8, 300); i++ {
+	for i := 0; i < verifh.Scale(20, 300); i++ {
 		n := c5.PickN(r)
 		secs = append(secs, verifh.Section{Cfg: fmt.Sprintf("kind=maxconns mode=seq n=%d", n),
 			Ops: c5.SeqOps(r, n, r.Range(10, 50), false, c5.FinishOp(r))})
 	}
+	return secs
+}
+
+func c05GenHandlerConc(r *verifh.Rng) []verifh.Section {
+	var secs []verifh.Section
 	for i := 0; i < verifh.Scale(5, 150); i++ {
 		n := r.Pick(1, 2, 3, r.Range(1, 8))
 		g := r.Pick(n, n+1, 2*n+1, r.Range(2, 12))
@@ -176,9 +181,12 @@ func c05StartMaxConns(cfg verifh.Cfg) (func(op []string) string, func()) {
 	}
 }
 
-func TestVerifC05Handler(t *testing.T) {
+func TestVerifC05HandlerSeq(t *testing.T) { c05RunHandler(t, verifh.Sections(c05GenHandlerSeq)) }
+
+func TestVerifC05HandlerConc(t *testing.T) { c05RunHandler(t, verifh.Sections(c05GenHandlerConc)) }
+
+func c05RunHandler(t *testing.T, secs []verifh.Section) {
 	logx.Disable()
-	secs := verifh.Sections(c05GenHandler)
 	verifh.Run(t, secs, func(cfg verifh.Cfg) (func(op []string) string, func()) {
 		if cfg.Str("kind", "") == "maxconns" {
 			return c05StartMaxConns(cfg)
